@@ -189,6 +189,37 @@ def grammar(tier):
 PARSE_FMTS = ["%f", "%.2f", "%d", "%.3m", "%.5m", "%.6m", "%.8m", "%.9m"]
 
 
+_ELDEV = {}
+
+
+def element_device():
+    """a real driver with one number element per format of PARSE_FMTS: the path a peer's number text takes in a
+    device (newNumberVector -> vector -> element -> stored value)"""
+    if "dev" not in _ELDEV:
+        from indi.routing import Router
+
+        from mc.gen import drivers as D
+
+        els = [dict(attr="e%d" % i, name="E%d" % i, default=0.0, format=f, min=-1e12, max=1e12, step=0) for i, f in enumerate(PARSE_FMTS)]
+        spec = dict(name="NUMDEV", groups=[dict(attr="g", name="G", vectors=[dict(attr="n", kind="number", name="N", elements=els)])])
+        cls, _ = D.build_class(spec)
+        _ELDEV["dev"] = cls(router=Router())
+    return _ELDEV["dev"]
+
+
+def element_parse(s, i):
+    """value stored by the element with format PARSE_FMTS[i] after a client wrote the text s"""
+    import indi.message as M
+    from indi.message.one_parts import OneNumber
+
+    dev = element_device()
+    vec = dev.g.n
+    el = getattr(vec, "e%d" % i)
+    el.reset_value(0.0)
+    vec.from_new_message(M.NewNumberVector(device="NUMDEV", name="N", children=[OneNumber(name="E%d" % i, value=s)]))
+    return el._value
+
+
 def parse_check(idx, n, tier, res, viol):
     from indi.device import values as V
     from indi.message.one_parts import OneNumber
@@ -224,6 +255,16 @@ def parse_check(idx, n, tier, res, viol):
                     continue
                 if got is None or abs(Fraction(got) - want) > Fraction(1, 10**9) * (1 + abs(want)):
                     viol("parse-value", "fmt=%s,%s" % (fclass, disc_s), "str_to_num(%r, %r) = %r, denotes %s" % (s, fmt, got, float(want)), {"kind": "parse", "text": s, "fmt": fmt})
+                # the same text written by a client to a device's number element of that format
+                if want != 0:
+                    res["evaluations"] += 1
+                    try:
+                        stored = element_parse(s, PARSE_FMTS.index(fmt))
+                    except Exception as e:
+                        viol("element-parse-raises", "fmt=%s,%s" % (fclass, disc_s), "element with format %r written %r: %r" % (fmt, s, e), {"kind": "parse", "text": s, "fmt": fmt})
+                        continue
+                    if stored is None or abs(Fraction(stored) - want) > Fraction(1, 10**9) * (1 + abs(want)):
+                        viol("element-parse-value", "fmt=%s,%s" % (fclass, disc_s), "element with format %r written %r stores %r, the text denotes %s" % (fmt, s, stored, float(want)), {"kind": "parse", "text": s, "fmt": fmt})
             res["counters"]["strings"] = res["counters"].get("strings", 0) + 1
 
 
@@ -352,6 +393,13 @@ def replay(rep):
                     out.append({"clause": "parse-value", "disc": "", "what": "%r -> %r" % (s, got)})
             except Exception as e:
                 out.append({"clause": "parse-raises", "disc": "", "what": repr(e)})
+            if want != 0:
+                try:
+                    stored = element_parse(s, PARSE_FMTS.index(rep["fmt"]))
+                    if stored is None or abs(Fraction(stored) - want) > Fraction(1, 10**9) * (1 + abs(want)):
+                        out.append({"clause": "element-parse-value", "disc": "", "what": "%r -> %r" % (s, stored)})
+                except Exception as e:
+                    out.append({"clause": "element-parse-raises", "disc": "", "what": repr(e)})
         else:
             try:
                 OneNumber(name="x", value=s)
